@@ -53,6 +53,20 @@ def gap_D(run, ell_maxes, rotors, per_ell, deep=False):
             except Exception as e:
                 run.violation("D-raised", "Wigner.D", {"ell_max": L, "R": list(R), **band_info(R)}, "values", repr(e))
                 continue
+            # the same request through an explicit (fresh, then recycled) workspace must give the same matrix
+            for wsname, ws in (("fresh", w.new_workspace()), ("recycled", getattr(w, "_verif_ws", None))):
+                if ws is None:
+                    continue
+                D2 = w.D(quaternionic.array(R), workspace=ws)
+                if not np.array_equal(D2, D, equal_nan=True):
+                    k = int(np.flatnonzero(D2 != D)[0])
+                    tr = [t for t in spherical.WignerDrange(0, L) if w.Dindex(*[int(x) for x in t]) == k]
+                    ell_k, mp_k, m_k = [int(x) for x in tr[0]]
+                    ex = oracle.D_exact(R, ell_k, mp_k, m_k)
+                    run.violation("D-differs-from-definition", "Wigner.D", {"ell_max": L, "R": list(R), "ell": ell_k, "mp": mp_k, "m": m_k, "workspace": wsname, **band_info(R)},
+                                  str(oracle.to_complex(ex)), str(complex(D2[k])), detail={"note": "explicit workspace after a default-workspace call"})
+                    break
+            w._verif_ws = w.new_workspace() if getattr(w, "_verif_ws", None) is None else w._verif_ws
             if not np.all(np.isfinite(D)):
                 i = int(np.flatnonzero(~np.isfinite(D))[0])
                 run.violation("D-not-finite", "Wigner.D", {"ell_max": L, "R": list(R), "flat_index": i, **band_info(R)}, "finite", str(D[i]))
